@@ -8,7 +8,7 @@ import ast
 from pyvc.util import native_file
 
 PROPERTY = 'C07'
-UNITS = ['C07', 'C06']
+UNITS = ['C07', 'C06', 'C10']        # C10's unit holds PatternRE._get_width: the width that orders terminals is that of to_regexp() (value AND flags)
 TRUSTED = [
     "list.sort(key): result is a permutation ordered by the key (stable sort of CPython); str '<' is code-point order",
     "re contract: a compiled alternation object matches or not as a function of (object, text, pos, endpos): MATCHES / GROUP0 / LASTGROUP / MSTART; first alternative wins inside one alternation (re semantics)",
